@@ -1,4 +1,5 @@
 import SockModel.Model.UriLemmas
+import SockModel.Legacy.UriRegex
 /-!
 # C11  Address construction is total: a value or an exception for every string
 
@@ -175,10 +176,92 @@ theorem leading_slash_rejected (rest : Bytes) : parseUri (0x2f :: rest) = .error
     simp [trimPath]
   simp [parseUri, dissect, hraw, Except.map]
 
+/-- the repair F4 changes no outcome: for EVERY input the plain-scan dissection returns exactly
+what the declarative reading of the three original regular expressions (`Legacy/UriRegex.lean`:
+`reServ`, `rePortBracket`, `rePort` with ECMAScript priorities) selects -/
+theorem dissect_refines_regex (s : Bytes) (d : Dissect) : dissectRaw s = some d ↔ Regex.RegexDissects s d := by
+  constructor
+  · intro e
+    unfold dissectRaw at e
+    cases ht : trimServAndPath s with
+    | none => simp [ht] at e
+    | some rs =>
+      obtain ⟨u, serv⟩ := rs
+      simp only [ht] at e
+      refine ⟨serv, u, Regex.trimServAndPath_iff.mp ht, ?_⟩
+      cases hsp : splitPort u with
+      | none =>
+        simp only [hsp, Option.some.injEq] at e
+        subst e
+        exact Or.inr ⟨rfl, Regex.splitPort_none_iff.mp hsp, rfl, rfl⟩
+      | some hp =>
+        obtain ⟨h, p⟩ := hp
+        simp only [hsp, Option.some.injEq] at e
+        subst e
+        exact Or.inl ⟨rfl, Regex.splitPort_iff.mp hsp⟩
+  · intro ⟨serv, u, hre, hport⟩
+    have ht := Regex.trimServAndPath_iff.mpr hre
+    obtain ⟨dh, ds, dn⟩ := d
+    rcases hport with ⟨hn, hrp⟩ | ⟨hn, hno, hh, hs⟩
+    · simp only at hn hrp
+      subst hn
+      simp [dissectRaw, ht, Regex.splitPort_iff.mpr hrp]
+    · simp only at hn hh hs
+      subst hn; subst hh; subst hs
+      simp [dissectRaw, ht, Regex.splitPort_none_iff.mpr hno]
+
+/-- ... and it rejects (`logic_error`) exactly the inputs on which `reServ` does not match -/
+theorem dissect_rejects_iff_regex_nonmatch (s : Bytes) :
+    dissect s = .error .logicError ↔ ¬ ∃ serv u, Regex.ReServ s serv u := by
+  rw [← Regex.trimServAndPath_none_iff]
+  constructor
+  · intro h
+    cases ht : trimServAndPath s with
+    | none => rfl
+    | some rs =>
+      exfalso
+      obtain ⟨u, serv⟩ := rs
+      have hraw : ∃ d, dissectRaw s = some d := by
+        unfold dissectRaw
+        simp only [ht]
+        cases splitPort u with
+        | none => exact ⟨_, rfl⟩
+        | some hp => exact ⟨_, rfl⟩
+      obtain ⟨d, hd⟩ := hraw
+      rcases dissect_total_classified s with ⟨d', h'⟩ | h' | h' | h'
+      · rw [h] at h'; cases h'
+      · -- logic_error: but with a successful split the error can only come from the range guard
+        unfold dissect at h
+        simp only [hd] at h
+        unfold guardRange at h
+        have nolog : ∀ (r : Except Exn Unit), r ≠ .error .logicError → r.map (fun _ => d) ≠ .error .logicError := by
+          intro r hr hm
+          cases r with
+          | ok u => cases hm
+          | error e => cases e <;> simp [Except.map] at hm hr
+        have hcr : checkRange d.serv ≠ .error .logicError := by
+          unfold checkRange checkRangeCore rangeOf
+          split
+          · simp
+          · split <;> split <;> (try split) <;> simp
+        split at h
+        · exact nolog _ hcr h
+        · split at h
+          · exact nolog _ hcr h
+          · cases h
+      · rw [h] at h'; cases h'
+      · rw [h] at h'; cases h'
+  · intro ht
+    simp [dissect, dissectRaw, ht]
+
 /-! ### non-vacuity / examples (each class of outcome is inhabited) -/
 
 example : parseUri (ofChars "http://[::1]:8080/a/b?c".toList) =
     .ok ⟨ofChars "::1".toList, ofChars "8080".toList, true⟩ := by decide
+example : Regex.RegexDissects (ofChars "http://[::1]:8080/a/b?c".toList) ⟨ofChars "::1".toList, ofChars "8080".toList, true⟩ :=
+  (dissect_refines_regex _ _).mp (by decide)
+example : ¬ ∃ serv u, Regex.ReServ (ofChars "host/pa\nth".toList) serv u :=
+  (dissect_rejects_iff_regex_nonmatch _).mp (by decide)
 example : parseUri [] = .error .invalidArgument := by decide
 example : parseUri (ofChars "host/pa\nth".toList) = .error .logicError := by decide
 example : parseUri (ofChars "h:99999".toList) = .error .runtimeError := by decide
